@@ -49,6 +49,37 @@ def corner_cot(pprev, p, pnext):
     return float(u @ w) / math.sqrt(float(c @ c))
 
 
+def exact_corner(pprev, p, pnext):
+    """(angle, cotangent) of the corner at p, from EXACT rational arithmetic on the stored coordinates (cross and dot products of
+    nearly parallel edges cancel catastrophically in floating point): correctly rounded |u x w|^2 and u.w, then sqrt / atan2 / division,
+    i.e. accurate to a few ulps of the angle itself however small it is."""
+    from fractions import Fraction
+    a = [Fraction(float(x)) - Fraction(float(y)) for x, y in zip(pprev, p)]
+    b = [Fraction(float(x)) - Fraction(float(y)) for x, y in zip(pnext, p)]
+    cx = a[1] * b[2] - a[2] * b[1]
+    cy = a[2] * b[0] - a[0] * b[2]
+    cz = a[0] * b[1] - a[1] * b[0]
+    n2 = cx * cx + cy * cy + cz * cz
+    d = a[0] * b[0] + a[1] * b[1] + a[2] * b[2]
+    # scale to avoid under/overflow of the float conversion of n2 (edges of any length)
+    la2 = a[0] * a[0] + a[1] * a[1] + a[2] * a[2]
+    lb2 = b[0] * b[0] + b[1] * b[1] + b[2] * b[2]
+    s = math.sqrt(float(n2 / (la2 * lb2)))
+    c = float(d) / math.sqrt(float(la2 * lb2))
+    return math.atan2(s, c), (c / s if s > 0 else float("inf"))
+
+
+def topo_counts(nV, F):
+    """V, E, F and the Euler characteristic of a polygon surface from its face list."""
+    es = set()
+    for f in F:
+        n = len(f)
+        for k in range(n):
+            a, b = f[k], f[(k + 1) % n]
+            es.add((min(a, b), max(a, b)))
+    return {"V": nV, "E": len(es), "F": len(F), "chi": nV - len(es) + len(F)}
+
+
 def vector_area(P):
     P = np.asarray(P, dtype=float)
     A = np.zeros(3)
